@@ -312,7 +312,7 @@ func runC09(c *Ctx, si interface{}) {
 					continue
 				}
 				c.Distinct(desc, s.TapeSeed, f.Kind, f.Arg, f.Read)
-				if k < len(pilot.Tape.Reads) && pilot.Tape.Reads[k].Site == "sfWrap" {
+				if k < len(pilot.Tape.Reads) && s.WL != nil && (pilot.Tape.Reads[k].Site == "sfWrap" || pilot.Tape.Reads[k].Site == "CharRecipe.Generate:afterBuild") {
 					c.Probe("fault_inside_separator_generation", 1)
 				}
 				if k == R-1 {
